@@ -1,7 +1,456 @@
-//! C14 — stub (not built yet).
+//! C14 — manifest entries cannot name anything outside the publication point.
+//!
+//! Manifest eContent is written by the independent encoder (`der.rs`) with
+//! hostile file names, hash bit strings of any length and times in either
+//! order, wrapped in a CMS with a real EE certificate. `Manifest::decode` is
+//! compared with the reference predicate `^[A-Za-z0-9_-]+\.[A-Za-z]{3}$`;
+//! for every decoded manifest the accessors are checked against what was
+//! encoded.
 
+use std::str::FromStr;
+use std::sync::OnceLock;
+
+use bytes::Bytes;
+use proptest::prelude::*;
+use rpki::crypto::DigestAlgorithm;
+use rpki::repository::manifest::{Manifest, ManifestHash};
+use rpki::uri;
+use serde::{Deserialize, Serialize};
+use serde_json::json;
+
+use crate::c02::{self, build_ee, lib_time, wide_window, AsRes, EeFault, EeSpec, Res};
+use crate::der::{self, oids, Cms, CmsOpts, MftEntry, TimeEnc};
 use crate::engine::*;
+use crate::keys;
+
+pub const RULE: &str = "names: manifests with 0..300 entries written by der.rs; file names from the classes {valid, empty, \
+no dot, two dots, ../x.cer, a/b.cer, .cer, ., .., trailing dot, 2-/4-letter extension, digit in extension, space, %, NUL, \
+non-ASCII, ~1 KiB long, leading/trailing separators}; hash BIT STRINGs of 0..64 octets with 0..7 unused bits (real \
+SHA-256, truncated, extended, random); thisUpdate/nextUpdate in either order, GeneralizedTime or UTCTime; 5 base URIs with and \
+without trailing slash; strict and relaxed decoding. Oracle: decode succeeds iff every name matches \
+^[A-Za-z0-9_-]+\\.[A-Za-z]{3}$ and thisUpdate <= nextUpdate (acceptance is only demanded when both times are \
+GeneralizedTime, as RFC 9286 requires); on success len()==iter().count()==entries, names/hashes byte-identical, \
+iter_uris(base) does not panic, every URI re-parses, equals base-directory + name, has the base directory as parent() and \
+base.is_parent_of(uri); ManifestHash::verify(data) is Ok iff the listed hash equals SHA-256(data) (aws-lc-rs). \
+name-enum: complete enumeration of all names of length 0..=5 over the alphabet {a Z 7 - _ . / space NUL} as only entry and \
+as second entry after a valid one. non-trivial = manifest with >= 2 entries of which >= 1 is hostile (names), each \
+enumerated name (name-enum).";
+
+pub const SIG_F13: &str = "mft-name-empty-base";
+
+/// Reference predicate for RFC 9286 §4.2.2 file names.
+pub fn name_ok(n: &[u8]) -> bool {
+    let Some(dot) = n.iter().position(|&c| c == b'.') else { return false };
+    dot >= 1
+        && n[..dot].iter().all(|&c| c.is_ascii_alphanumeric() || c == b'-' || c == b'_')
+        && n.len() == dot + 4
+        && n[dot + 1..].iter().all(|c| c.is_ascii_alphabetic())
+}
+
+/// `.xyz`: empty base name with an otherwise valid extension (finding F13).
+fn is_empty_base(n: &[u8]) -> bool {
+    n.len() == 4 && n[0] == b'.' && n[1..].iter().all(|c| c.is_ascii_alphabetic())
+}
+
+const BASES: &[&str] = &[
+    "rsync://example.com/mod/",
+    "rsync://example.com/mod/dir",
+    "rsync://example.com/mod/dir/",
+    "rsync://EXAMPLE.com/Mod/a/b/",
+    "rsync://h/m/x.y/",
+];
+
+fn ee_cert_der() -> &'static [u8] {
+    static EE: OnceLock<Vec<u8>> = OnceLock::new();
+    EE.get_or_init(|| {
+        let (nb, na) = wide_window();
+        let spec = EeSpec { key: 1, issuer: 0, v4: Res::Inherit, v6: Res::Inherit, asn: AsRes::Inherit, trim: false, nb, na };
+        build_ee(&spec, EeFault::None).to_captured().into_bytes().to_vec()
+    })
+}
+
+/// CMS wrapper around manifest eContent. `Manifest::decode` does not verify
+/// the signature (that is C02), so a constant signature value is used.
+fn wrap(content: &[u8]) -> Vec<u8> {
+    let attrs = vec![
+        der::attr_content_type(oids::CT_MFT),
+        der::attr_message_digest(&keys::sha256(content)),
+        der::attr_signing_time(TimeEnc::new(c02::ymd(2026, 1, 1), false)),
+    ];
+    Cms {
+        content_type: oids::CT_MFT.to_vec(),
+        content: content.to_vec(),
+        certs: vec![ee_cert_der().to_vec()],
+        crls: vec![],
+        sid: keys::key_id_of_spki(&keys::pool().spki[1]).unwrap().to_vec(),
+        attrs,
+        signature: vec![0x5A; 256],
+        opts: CmsOpts { sig_alg_null: true, ..CmsOpts::default() },
+    }
+    .encode()
+}
+
+//============ sub-check: names ==================================================
+
+#[derive(Clone, Debug, Serialize, Deserialize)]
+pub enum HashKind {
+    /// SHA-256 of the entry's data
+    Real,
+    /// first `n` octets of the real hash (n < 32)
+    Truncated(u8),
+    /// real hash followed by `n` more octets (n >= 1)
+    Extended(u8),
+    /// `len` octets from a seed, `unused` unused bits
+    Random { len: u8, unused: u8, seed: u8 },
+}
+
+#[derive(Clone, Debug, Serialize, Deserialize)]
+pub struct Entry {
+    pub name: Vec<u8>,
+    pub hash: HashKind,
+    /// the file content the hash is checked against
+    pub data: Vec<u8>,
+}
+
+impl Entry {
+    fn hash_bytes(&self) -> (Vec<u8>, u8) {
+        let real = keys::sha256(&self.data);
+        match &self.hash {
+            HashKind::Real => (real.to_vec(), 0),
+            HashKind::Truncated(n) => (real[..(*n as usize).min(31)].to_vec(), 0),
+            HashKind::Extended(n) => {
+                let mut v = real.to_vec();
+                v.extend((0..(*n).max(1)).map(|i| i.wrapping_mul(17)));
+                (v, 0)
+            }
+            HashKind::Random { len, unused, seed } => {
+                let mut v: Vec<u8> = (0..*len).map(|i| seed.wrapping_add(i.wrapping_mul(37))).collect();
+                let unused = if v.is_empty() { 0 } else { *unused & 7 };
+                der::zero_unused(&mut v, unused);
+                (v, unused)
+            }
+        }
+    }
+}
+
+#[derive(Clone, Debug, Serialize, Deserialize)]
+pub struct Names {
+    pub entries: Vec<Entry>,
+    pub number: Vec<u8>,
+    pub this_update: i64,
+    pub next_update: i64,
+    pub this_generalized: bool,
+    pub next_generalized: bool,
+    pub base: u8,
+}
+
+fn valid_name() -> BoxedStrategy<Vec<u8>> {
+    ("[A-Za-z0-9_-]{1,16}", "[A-Za-z]{3}").prop_map(|(b, e)| format!("{}.{}", b, e).into_bytes()).boxed()
+}
+
+fn hostile_name() -> BoxedStrategy<Vec<u8>> {
+    let fixed: Vec<&[u8]> = vec![
+        b"", b"cer", b"abc", b"a.b.cer", b"../x.cer", b"a/b.cer", b"/a.cer", b"a.cer/", b".cer", b".", b"..", b"...",
+        b"abc.", b"a..cer", b"a.ce", b"a.c", b"a.cerx", b"a.c3r", b"a.ce-", b"a b.cer", b" a.cer", b"a.cer ", b"a%2e.cer",
+        b"a%2f..%2fb.cer", b"a\0.cer", b"a.cer\0", b"\0", b"a\n.cer", b"a\r\n.cer", b"a\\b.cer", b"a.CER.roa", b"~a.cer",
+        b"a+b.cer", b"a,b.cer", b"a:b.cer", b"a@b.cer", b"a.c\xe9r", b"\xc3\xa4.cer", b"\xff.cer", b"a.cer.", b".a.cer",
+        b"-.cer", b"_.cer", b"..cer", b"./a.cer", b"a/../b.cer", b"rsync://h/m/x.cer", b".CER", b".roa", b".mft", b".a", b".abcd",
+    ];
+    prop_oneof![
+        10 => prop::sample::select(fixed).prop_map(|s| s.to_vec()),
+        2 => prop::collection::vec(prop::sample::select(b"aZ7-_./ %\0\x80".to_vec()), 0..10),
+        1 => prop::collection::vec(any::<u8>(), 0..12),
+        // ~1 KiB names: valid, and broken at one position
+        1 => (1000usize..1100, "[A-Za-z]{3}").prop_map(|(n, e)| { let mut v = vec![b'a'; n]; v.push(b'.'); v.extend(e.bytes()); v }),
+        1 => (1000usize..1100, any::<u16>(), prop::sample::select(b"/. \0\x80%".to_vec())).prop_map(|(n, p, c)| {
+            let mut v = vec![b'a'; n];
+            v.extend_from_slice(b".cer");
+            let i = crate::gen::pick_idx(p, n);
+            v[i] = c;
+            v
+        }),
+        // valid name with one character replaced or inserted
+        3 => (valid_name(), any::<u16>(), prop::sample::select(b"/. \0\x80%+~".to_vec()), any::<bool>()).prop_map(|(mut v, p, c, ins)| {
+            let i = crate::gen::pick_idx(p, v.len());
+            if ins { v.insert(i, c) } else { v[i] = c }
+            v
+        }),
+    ]
+    .boxed()
+}
+
+fn hash_strategy() -> BoxedStrategy<HashKind> {
+    prop_oneof![
+        5 => Just(HashKind::Real),
+        1 => (0u8..32).prop_map(HashKind::Truncated),
+        1 => (1u8..33).prop_map(HashKind::Extended),
+        3 => (prop_oneof![3 => 0u8..=64, 2 => Just(32u8)], 0u8..8, any::<u8>())
+            .prop_map(|(len, unused, seed)| HashKind::Random { len, unused, seed }),
+    ]
+    .boxed()
+}
+
+fn entry_strategy(hostile_share: u32) -> BoxedStrategy<Entry> {
+    (
+        prop_oneof![(100 - hostile_share) => valid_name(), hostile_share => hostile_name()],
+        hash_strategy(),
+        prop::collection::vec(any::<u8>(), 0..12),
+    )
+        .prop_map(|(name, hash, data)| Entry { name, hash, data })
+        .boxed()
+}
+
+fn names_strategy(_: Tier) -> BoxedStrategy<Names> {
+    let entries = prop_oneof![
+        // all valid
+        4 => prop::collection::vec(entry_strategy(0), 0..8),
+        // exactly one hostile among valid ones
+        6 => (prop::collection::vec(entry_strategy(0), 1..8), entry_strategy(100), any::<u16>()).prop_map(|(mut v, h, p)| {
+            let i = crate::gen::pick_idx(p, v.len() + 1);
+            v.insert(i, h);
+            v
+        }),
+        2 => prop::collection::vec(entry_strategy(30), 0..8),
+        1 => prop::collection::vec(entry_strategy(1), 100..300),
+    ];
+    let times = prop_oneof![
+        6 => (c02::ymd(2020, 1, 1)..c02::ymd(2080, 1, 1), 0i64..40 * 86_400).prop_map(|(t, d)| (t, t + d)),
+        2 => (c02::ymd(2020, 1, 1)..c02::ymd(2080, 1, 1)).prop_map(|t| (t, t)),
+        2 => (c02::ymd(2020, 1, 1)..c02::ymd(2080, 1, 1), 1i64..40 * 86_400).prop_map(|(t, d)| (t + d, t)),
+        1 => (c02::ymd(2020, 1, 1)..c02::ymd(2080, 1, 1)).prop_map(|t| (t + 1, t)),
+    ];
+    (
+        entries,
+        prop::collection::vec(any::<u8>(), 1..=20),
+        times,
+        prop::bool::weighted(0.8),
+        prop::bool::weighted(0.8),
+        0u8..BASES.len() as u8,
+    )
+        .prop_map(|(entries, mut number, (this_update, next_update), tg, ng, base)| {
+            number[0] &= 0x7f;
+            Names { entries, number, this_update, next_update, this_generalized: tg, next_generalized: ng, base }
+        })
+        .boxed()
+}
+
+fn names_content(c: &Names) -> (Vec<u8>, Vec<(Vec<u8>, Vec<u8>, u8)>, TimeEnc, TimeEnc) {
+    let enc: Vec<(Vec<u8>, Vec<u8>, u8)> = c.entries.iter().map(|e| { let (h, u) = e.hash_bytes(); (e.name.clone(), h, u) }).collect();
+    let list: Vec<MftEntry> = enc.iter().map(|(n, h, u)| MftEntry { name: n.clone(), hash: h.clone(), unused: *u }).collect();
+    let this = TimeEnc::new(c.this_update, c.this_generalized);
+    let next = TimeEnc::new(c.next_update, c.next_generalized);
+    (der::manifest_content(&c.number, this, next, &list, false), enc, this, next)
+}
+
+fn run_names(c: &Names, obs: &mut Obs) -> CheckResult {
+    let (content, enc, this, next) = names_content(c);
+    let bytes = wrap(&content);
+    let bad: Vec<&Vec<u8>> = c.entries.iter().map(|e| &e.name).filter(|n| !name_ok(n)).collect();
+    let names_ok = bad.is_empty();
+    let order_ok = c.this_update <= c.next_update;
+    let should_decode = names_ok && order_ok;
+    let all_generalized = this.is_generalized() && next.is_generalized();
+
+    obs.label(if names_ok { "names-valid" } else { "names-hostile" });
+    obs.label(if order_ok { "this<=next" } else { "this>next" });
+    obs.label_if(!all_generalized, "utctime");
+    obs.label_if(c.entries.len() >= 100, "entries>=100");
+    obs.label_if(c.entries.iter().any(|e| is_empty_base(&e.name)), "name:.ext");
+    obs.label_if(c.entries.iter().any(|e| e.name.contains(&b'/')), "name:slash");
+    obs.label_if(c.entries.iter().any(|e| e.name.len() > 900), "name:long");
+    obs.label_if(c.entries.iter().any(|e| !matches!(e.hash, HashKind::Real)), "hash:not-sha256");
+    obs.nontrivial_if(c.entries.len() >= 2 && !names_ok);
+
+    let mut decoded = Vec::new();
+    for strict in [true, false] {
+        let r = no_panic("Manifest::decode", || Manifest::decode(bytes.as_slice(), strict))?;
+        match r {
+            Ok(m) => {
+                if !names_ok {
+                    let msg = format!(
+                        "Manifest::decode(strict={}) accepted a manifest with file name(s) that are not a single RFC 9286 segment: {:?}",
+                        strict,
+                        bad.iter().map(|n| String::from_utf8_lossy(n).into_owned()).collect::<Vec<_>>()
+                    );
+                    if bad.iter().all(|n| is_empty_base(n)) {
+                        return Err(Fail::sig(SIG_F13, msg));
+                    }
+                    return Err(Fail::new(msg));
+                }
+                ensure!(order_ok, "Manifest::decode(strict={}) accepted thisUpdate {} after nextUpdate {}", strict, c.this_update, c.next_update);
+                decoded.push(m);
+            }
+            Err(e) => {
+                // acceptance is demanded for RFC 9286 conformant content only
+                ensure!(
+                    !(should_decode && all_generalized),
+                    "Manifest::decode(strict={}) rejected a conformant manifest: {}", strict, e
+                );
+            }
+        }
+    }
+    obs.label_if(!decoded.is_empty(), "decoded");
+    let base = uri::Rsync::from_str(BASES[c.base as usize % BASES.len()]).map_err(|e| Fail::new(format!("base uri: {}", e)))?;
+    let mut base_dir = base.clone();
+    base_dir.path_into_dir();
+    for m in &decoded {
+        let mc = m.content();
+        ensure_eq!(mc.len(), c.entries.len(), "len()");
+        ensure_eq!(mc.is_empty(), c.entries.is_empty(), "is_empty()");
+        let items = no_panic("FileListIter", || mc.iter().map(|f| f.into_pair()).collect::<Vec<_>>())?;
+        ensure_eq!(items.len(), mc.len(), "number of items from iter() vs len()");
+        for (i, (n, h)) in items.iter().enumerate() {
+            ensure_eq!(n.as_ref(), enc[i].0.as_slice(), "file name {} as returned by iter()", i);
+            ensure_eq!(h.as_ref(), enc[i].1.as_slice(), "hash {} as returned by iter()", i);
+        }
+        ensure!(mc.this_update() <= mc.next_update(), "this_update() after next_update()");
+        ensure_eq!(mc.this_update(), lib_time(c.this_update), "this_update()");
+        ensure_eq!(mc.next_update(), lib_time(c.next_update), "next_update()");
+        let uris = no_panic("iter_uris", || mc.iter_uris(&base).collect::<Vec<_>>())?;
+        ensure_eq!(uris.len(), c.entries.len(), "number of items from iter_uris()");
+        for (i, (u, h)) in uris.iter().enumerate() {
+            let name = &enc[i].0;
+            let reparsed = uri::Rsync::from_str(u.as_str());
+            ensure!(reparsed.as_ref().ok() == Some(u), "URI {} from iter_uris does not re-parse to itself", u);
+            let mut want = base_dir.as_str().as_bytes().to_vec();
+            want.extend_from_slice(name);
+            ensure_eq!(u.as_slice(), want.as_slice(), "URI of entry {}", i);
+            ensure!(u.parent().as_ref() == Some(&base_dir), "parent() of {} is {:?}, not the base directory {}", u, u.parent().map(|p| p.to_string()), base_dir);
+            ensure!(base.is_parent_of(u), "base {} is not parent of {}", base, u);
+            ensure!(base_dir.is_parent_of(u), "base directory {} is not parent of {}", base_dir, u);
+            ensure!(!u.path_is_dir(), "URI {} names a directory", u);
+            // hash verification
+            let e = &c.entries[i];
+            let real = keys::sha256(&e.data);
+            let expect_ok = enc[i].1.as_slice() == real.as_slice() && enc[i].2 == 0;
+            let undecided = enc[i].1.as_slice() == real.as_slice() && enc[i].2 != 0;
+            let got = h.verify(&e.data).is_ok();
+            ensure!(undecided || got == expect_ok, "ManifestHash::verify for entry {} ({:?}): {} expected {}", i, e.hash, got, expect_ok);
+            // and against other data
+            let mut other = e.data.clone();
+            other.push(0);
+            ensure!(h.verify(&other).is_err() || enc[i].1.as_slice() == keys::sha256(&other).as_slice(), "hash verifies against other data");
+            ensure_eq!(h.as_slice(), enc[i].1.as_slice(), "ManifestHash::as_slice of entry {}", i);
+            // a hash built from the listed bytes behaves the same
+            let mh = ManifestHash::new(Bytes::copy_from_slice(&enc[i].1), DigestAlgorithm::sha256());
+            ensure!(mh.verify(&e.data).is_ok() == got, "ManifestHash::new(..).verify differs");
+        }
+    }
+    Ok(())
+}
+
+//============ sub-check: name-enum ===============================================
+
+const ALPHABET: &[u8] = b"aZ7-_./ \0";
+const MAX_LEN: u32 = 5;
+const CHUNK: u64 = 128;
+
+fn enum_total() -> u64 {
+    (0..=MAX_LEN).map(|l| (ALPHABET.len() as u64).pow(l)).sum()
+}
+
+/// The `idx`-th name: all names of length 0, then length 1, ...
+fn nth_name(mut idx: u64) -> Vec<u8> {
+    let k = ALPHABET.len() as u64;
+    let mut len = 0u32;
+    while idx >= k.pow(len) {
+        idx -= k.pow(len);
+        len += 1;
+    }
+    let mut v = vec![0u8; len as usize];
+    for i in (0..len as usize).rev() {
+        v[i] = ALPHABET[(idx % k) as usize];
+        idx /= k;
+    }
+    v
+}
+
+#[derive(Clone, Debug, Serialize, Deserialize)]
+pub struct NameChunk {
+    pub start: u64,
+    pub len: u64,
+}
+
+fn enum_manifest(names: &[&[u8]]) -> Vec<u8> {
+    let list: Vec<MftEntry> =
+        names.iter().map(|n| MftEntry { name: n.to_vec(), hash: keys::sha256(n).to_vec(), unused: 0 }).collect();
+    let t = TimeEnc::new(c02::ymd(2026, 1, 1), true);
+    wrap(&der::manifest_content(&[1], t, t, &list, false))
+}
+
+fn run_name_chunk(c: &NameChunk, obs: &mut Obs) -> CheckResult {
+    let base = uri::Rsync::from_str(BASES[1]).unwrap();
+    for idx in c.start..(c.start + c.len).min(enum_total()) {
+        let name = nth_name(idx);
+        let ok = name_ok(&name);
+        let one = json!({ "start": idx, "len": 1 });
+        for second in [false, true] {
+            let bytes = if second { enum_manifest(&[b"ok.cer", &name]) } else { enum_manifest(&[&name]) };
+            for strict in [true, false] {
+                let r = no_panic("Manifest::decode", || Manifest::decode(bytes.as_slice(), strict)).map_err(|f| f.with_case(one.clone()))?;
+                if r.is_ok() != ok {
+                    let msg = format!(
+                        "Manifest::decode(strict={}) {} file name {:?} (reference predicate: {})",
+                        strict, if r.is_ok() { "accepts" } else { "rejects" }, String::from_utf8_lossy(&name), ok
+                    );
+                    let sig = if is_empty_base(&name) { SIG_F13 } else { "name-enum" };
+                    return Err(Fail::sig(sig, msg).with_case(one));
+                }
+                if let Ok(m) = r {
+                    let uris = no_panic("iter_uris", || m.content().iter_uris(&base).collect::<Vec<_>>()).map_err(|f| f.with_case(one.clone()))?;
+                    let last = uris.last().map(|(u, _)| u.as_slice().to_vec()).unwrap_or_default();
+                    let mut want = b"rsync://example.com/mod/dir/".to_vec();
+                    want.extend_from_slice(&name);
+                    if last != want || uris.len() != 1 + second as usize {
+                        return Err(Fail::sig("name-enum", format!("iter_uris for {:?} yields {:?}", String::from_utf8_lossy(&name), String::from_utf8_lossy(&last))).with_case(one));
+                    }
+                }
+            }
+        }
+    }
+    let n = (c.start + c.len).min(enum_total()).saturating_sub(c.start);
+    obs.evals(n.saturating_sub(1));
+    obs.bulk_nontrivial = n;
+    Ok(())
+}
 
 pub fn property() -> Property {
-    Property { id: "C14", rule: "", assumptions: vec![], subs: vec![] }
+    Property {
+        id: "C14",
+        rule: RULE,
+        assumptions: vec![
+            "Manifest::decode does not verify the signature (property C02): the CMS wrapper carries a real EE certificate and a constant signature value",
+            "bit strings are DER (unused bits zero); times are whole seconds; the manifest number is a positive integer of at most 20 octets",
+            "acceptance of a manifest is only demanded when thisUpdate/nextUpdate are GeneralizedTime (RFC 9286); with UTCTime only 'accepted implies names valid and this <= next' is checked",
+        ],
+        subs: vec![
+            PropSub {
+                name: "names",
+                strategy: names_strategy,
+                cases: |t| t.pick(80_000, 4_000_000),
+                run: run_names,
+                floors: &[
+                    ("names-valid", 0.2),
+                    ("names-hostile", 0.25),
+                    ("this>next", 0.1),
+                    ("decoded", 0.12),
+                    ("utctime", 0.1),
+                    ("entries>=100", 0.03),
+                    ("name:.ext", 0.02),
+                    ("name:slash", 0.05),
+                    ("name:long", 0.01),
+                    ("hash:not-sha256", 0.3),
+                ],
+            }
+            .boxed(),
+            EnumSub {
+                name: "name-enum",
+                count: |_, _| enum_total().div_ceil(CHUNK),
+                make: |_, _, idx| NameChunk { start: idx * CHUNK, len: CHUNK },
+                run: run_name_chunk,
+                exhaustive: true,
+            }
+            .boxed(),
+        ],
+    }
 }
